@@ -216,8 +216,8 @@ def passDgram (o : C29.Output) : QOut :=
 /-- `server.py` executes a `CloseConnection` on one of the two QUIC connections -/
 def dgramEffect (m : Mux σ) (o : C29.Output) : Mux σ :=
   match o with
-  | .close .client half => { m with client := C29.applyClose m.client half }
-  | .close .server half => { m with server := C29.applyClose m.server half }
+  | .close .client half => { m with client := C29.applyClose m.client half false }
+  | .close .server half => { m with server := C29.applyClose m.server half false }
   | _ => m
 
 def applyDgramEffects (m : Mux σ) (outs : List C29.Output) : Mux σ := outs.foldl dgramEffect m
